@@ -12,15 +12,25 @@ Every filter of every stream also goes through every public parsing entry point 
 Parse after a debug run, the ast listener, ast.Parse and the string query APIs of a boltz and of an objectz store;
 c10_entry.go; model Lang/GlueEntry.v, theorems entry_points_agree / every_entry_rejects_lexer_errors): one that accepts text with
 unrecognised characters or a non-sentence, panics, or disagrees with the others violates C10.  Stream qcur evaluates filters for
-every scanner through Store.QueryWithCursorC with every cursor provider the library offers (c10_cursors.go)."""
+every scanner through Store.QueryWithCursorC with every cursor provider the library offers (c10_cursors.go).
+Stream edge (c10_edge.go): every blank-like character that is not white space of the grammar (Go's unicode tables: IsSpace, controls,
+separators, format characters, BOM, NUL, U+FFFD, look-alikes of ASCII), byte sequences that are not UTF-8 and mixtures with grammar
+white space as first / last characters, at token boundaries and in place of a blank of short valid sentences (model Lang/ForeignBlank.v,
+theorems blank_like_characters_are_foreign / text_starting_with_untokenizable_rejected / text_ending_with_untokenizable_rejected).
+Termination (c10_term.go, child process): families of valid texts of growing size and their invalid twins (one error at the start / in the
+middle / at the end) through every entry point, every call under a time bound relative to the valid twin of the same size; a call that
+does not return is C10:parse-does-not-terminate, reported with the shortest stalling text."""
 import json
 import os
+import time
 
 import vlib
 
 PID = "C10"
 FILES = ["theories/Properties/C10.v", "theories/Examples/C10Examples.v"]
-THEOREMS = ["lexer_error_rejects", "accepted_query_is_unaltered", "entry_points_agree", "every_entry_rejects_lexer_errors"]
+THEOREMS = ["lexer_error_rejects", "accepted_query_is_unaltered", "entry_points_agree", "every_entry_rejects_lexer_errors",
+            "grammar_ws_is_four_characters", "blank_like_characters_are_foreign", "text_starting_with_untokenizable_rejected",
+            "text_ending_with_untokenizable_rejected", "foreign_blank_at_an_edge_rejected"]
 
 
 # the datasets of the store-backed streams (harness c10_store.go): <root> or only:<the one entity of the main store that is needed>
@@ -68,7 +78,132 @@ def parse_entries(field):
 
 
 def runes(s):
-    return "" if s == "-" else "".join(chr(int(h, 16)) for h in s.split("."))
+    """the filter of a case line as the lexer sees it: a byte that is not part of well-formed UTF-8 (xHH) arrives as U+FFFD;
+    the exact bytes are in the replay as `filter_go` (a Go string literal)"""
+    return "".join(chr(cp) for cp in code_points(s))
+
+
+def code_points(s):
+    """code points as the lexer sees them (a raw non-UTF-8 byte arrives as U+FFFD)"""
+    return [] if s == "-" else [0xFFFD if h.startswith("x") else int(h, 16) for h in s.split(".")]
+
+
+def go_literal(s):
+    """the filter of a case line as a Go interpreted string literal (exact bytes)"""
+    out = []
+    for h in ([] if s == "-" else s.split(".")):
+        if h.startswith("x"):
+            out.append("\\x" + h[1:])
+            continue
+        cp = int(h, 16)
+        if cp == 0x22 or cp == 0x5C:
+            out.append("\\" + chr(cp))
+        elif 0x20 <= cp < 0x7F:
+            out.append(chr(cp))
+        elif cp < 0x80:
+            out.append("\\x%02x" % cp)
+        elif cp <= 0xFFFF:
+            out.append("\\u%04x" % cp)
+        else:
+            out.append("\\U%08x" % cp)
+    return '"' + "".join(out) + '"'
+
+# the entry points of the termination stream (harness c10_term.go): the nine of ENTRY_NAMES + two
+TERM_ENTRY_NAMES = ENTRY_NAMES + ["ast.Parse with the in-memory symbol table", "the lexer alone (GetAllTokens)"]
+
+
+def term_launch(c, harness, only=None):
+    """start the termination stream (a child process) in the background; term_step(c, harness, launched=...) evaluates it"""
+    import threading
+    box = {}
+
+    def work():
+        box["res"] = term_run(c, harness, only)
+    th = threading.Thread(target=work)
+    th.start()
+    return th, box
+
+
+def term_run(c, harness, only=None):
+    bound_ms = int(os.environ.get("C10_TERM_BOUND_MS", "5000"))
+    tdir = os.path.join(c.work, "term")
+    os.makedirs(tdir, exist_ok=True)
+    args = [harness, "c10", "--termcase", "1", "--tier", c.tier, "--termbound", str(bound_ms), "--out", tdir]
+    if only:
+        args += ["--termonly", only]
+    t0 = time.time()
+    rc, out = vlib.run(args, timeout=1500)
+    return rc, out, time.time() - t0, bound_ms, tdir
+
+
+def term_step(c, harness, only=None, launched=None):
+    """termination: families of valid texts of growing size and their invalid twins (one error at the start / middle / end)
+    through every entry point, every call under a time bound, in a child process (harness c10_term.go)"""
+    if launched is not None:
+        th, box = launched
+        th.join()
+        rc, out, term_wall, bound_ms, tdir = box["res"]
+    else:
+        rc, out, term_wall, bound_ms, tdir = term_run(c, harness, only)
+    lines = [l.split() for l in out.split("\n")]
+    tl = [l for l in lines if l and l[0] == "T" and len(l) >= 7]
+    stalls = [l for l in lines if l and l[0] == "STALL" and len(l) >= 9]
+    done = [l for l in lines if l and l[0] == "DONE"]
+    slowest = 0.0
+    fams = {}
+    for l in tl:
+        ms = [float(x) for x in l[6].split(",")] if "," in l[6] else [float(l[6])]
+        slowest = max(slowest, max(ms))
+        fams.setdefault(l[1], set()).add(int(l[2]))
+    c.cov["termination"] = dict(wall_s=round(term_wall, 1), families_not_run_after_two_stalls=[l[1] for l in lines if l and l[0] == "SKIP"], texts=len(tl), calls=int(done[0][2]) if done else None, slowest_call_ms=slowest, bound_ms=bound_ms,
+                                families={f: sorted(v) for f, v in fams.items()}, entry_points=TERM_ENTRY_NAMES,
+                                rule="every family member of every size: the valid text and 12 invalid twins (a foreign character, a stray parenthesis, a dangling "
+                                "connective, a removed token - at the start, in the middle, at the end) through every entry point, each call bounded by "
+                                "max(bound_ms, 100 x the time of the valid twin of the same size through the same entry point)")
+    if only:
+        for l in lines:
+            if l:
+                vlib.log("REPLAY " + " ".join(l[:4]) + " " + " ".join(l[5:]))
+    # shortest stalling text first
+    stalls.sort(key=lambda l: len(code_points(l[7])))
+    for l in stalls:
+        fam, n, variant, k, bound, valid_ms, text_r, valid_r = l[1], int(l[2]), l[3], int(l[4]), float(l[5]), float(l[6]), l[7], l[8]
+        text, valid = runes(text_r), runes(valid_r)
+        # what the same entry point needed for the smaller members of the family (same kind of twin)
+        hist = []
+        for t in tl:
+            if t[1] == fam and t[3] == variant and int(t[2]) < n:
+                if ":" in t[5]:
+                    hist.append((int(t[2]), float(t[6])))
+                else:
+                    ms = t[6].split(",")
+                    if k < len(ms) and t[5][k] not in "?.":
+                        hist.append((int(t[2]), float(ms[k])))
+        hist = sorted(set(hist))
+        c.violation("C10:parse-does-not-terminate",
+                    "%s does not answer within %.0f s on a text of %d characters%s: %r (family %s of size %d%s). %s. "
+                    "The same entry point answered the smaller members of the family in: %s"
+                    % (TERM_ENTRY_NAMES[k], bound / 1000, len(text), "" if variant in ("valid", "noise") else " that is not a sentence of the grammar",
+                       text if len(text) <= 400 else text[:400] + "...", fam, n,
+                       "" if variant in ("valid", "noise") else ", twin `%s`" % variant,
+                       ("The valid text of the same size %r is answered in %.3f ms" % (valid if len(valid) <= 200 else valid[:200] + "...", valid_ms))
+                       if variant not in ("valid", "noise") else "Reference time %.3f ms" % valid_ms,
+                       ", ".join("%d: %.1f ms" % h for h in hist[-8:]) or "-"),
+                    dict(termcase=dict(family=fam, n=n, variant=variant, entry=k), entry_point=TERM_ENTRY_NAMES[k], filter=text, filter_go=go_literal(text_r),
+                         valid_twin=valid, valid_twin_ms=valid_ms, bound_ms=bound, smaller_members_ms=hist,
+                         how_to_reproduce="call the entry point on `filter_go`; it does not return (in time). The shortest stalling member of the family was searched for "
+                         "(growth in steps of one from the first suspiciously slow size / bisection)"))
+    if rc != 0 and not stalls:
+        hang = ""
+        try:
+            hang = open(os.path.join(tdir, "HANG.txt")).read().strip()
+        except OSError:
+            pass
+        last = " ".join(tl[-1][:4]) if tl else "-"
+        c.violation("C10:parse-does-not-terminate",
+                    "the termination stream did not finish (rc=%s): %s" % (rc, ("no progress in " + hang[:300]) if hang else ("last finished text: " + last)),
+                    dict(termcase=dict(hang=hang, last=last), rc=rc, log=out[-2000:]))
+    return not stalls and rc == 0
 
 
 def main(argv):
@@ -97,6 +232,13 @@ def main(argv):
         return c.finish()
 
     cases_path = os.path.join(c.work, "cases.txt")
+    if c.replay and "termcase" in json.load(open(c.replay)):
+        tc = json.load(open(c.replay))["termcase"]
+        if "family" in tc:
+            term_step(c, harness, only="%s,%d,%s,%d" % (tc["family"], tc["n"], tc["variant"], tc["entry"]))
+        else:
+            term_step(c, harness)
+        return c.finish()
     if c.replay:
         rp = json.load(open(c.replay))
         rin = os.path.join(c.work, "replay_in.txt")
@@ -106,14 +248,30 @@ def main(argv):
     else:
         args = [harness, "c10", "--seed", str(c.seed), "--tier", c.tier, "--out", c.work]
     rc, out = vlib.run(args, timeout=3000, env=dict(os.environ, VERIF_JOBS=vlib.NPROC))
+    if rc == 7 and os.path.exists(os.path.join(c.work, "HANG.txt")):
+        # a worker was busy with one case for longer than the stall limit: parsing / evaluation does not terminate
+        hang = open(os.path.join(c.work, "HANG.txt")).read().strip()
+        hf = hang.split()
+        c.violation("C10:parse-does-not-terminate",
+                    "the library did not answer within the stall limit (60 s) on the filter %r (stream %s): parsing or evaluating it does not terminate"
+                    % (runes(hf[2]) if len(hf) > 2 else hang, hf[1] if len(hf) > 1 else "?"),
+                    dict(case=hang, filter=runes(hf[2]) if len(hf) > 2 else None, filter_go=go_literal(hf[2]) if len(hf) > 2 else None))
+        return c.finish()
     if rc != 0:
         c.violation("C10:harness-run", "harness failed rc=%s: %s" % (rc, out[-500:]),
                     dict(correspondence="harness run", log=out[-3000:]), no_input=True)
         return c.finish()
+    # the termination stream runs in a child process of its own while the model runs and the observations are classified
+    term_bg = term_launch(c, harness) if not c.replay else None
     cases = vlib.read_lines(cases_path)
     impl = vlib.read_lines(os.path.join(c.work, "impl.txt"))
     modl = vlib.run_model(model, "c10", cases_path, os.path.join(c.work, "model.txt"))
     assert len(cases) == len(impl) == len(modl), (len(cases), len(impl), len(modl))
+    # W lines: the harness's population of blank-like characters (Go's unicode tables) against the table of Lang/ForeignBlank.v
+    table_mismatch = [(ca, i, m) for ca, i, m in zip(cases, impl, modl) if ca.startswith("W ") and i != m]
+    c.cov["blank_like_table"] = [dict(impl=i, model=m) for ca, i, m in zip(cases, impl, modl) if ca.startswith("W ")]
+    keep = [k for k, ca in enumerate(cases) if not ca.startswith("W ")]
+    cases, impl, modl = [cases[k] for k in keep], [impl[k] for k in keep], [modl[k] for k in keep]
 
     distinct = set()
     disagreements = []
@@ -121,8 +279,7 @@ def main(argv):
     verdict_hist = {}
     # violations are reported shortest input first so that the first replay of a class is minimal
     def weight(k):
-        rs = cases[k].split()[2]
-        cps = [] if rs == "-" else [int(h, 16) for h in rs.split(".")]
+        cps = code_points(cases[k].split()[2])
         return (len(cps), sum(1 for x in cps if x < 32 or x > 126), k)
     order = sorted(range(len(cases)), key=weight)
     for k in order:
@@ -135,7 +292,7 @@ def main(argv):
         evaluations += len(verdicts)
         if itoks != "-" or ierr != "e0":
             distinct.add(case)
-        rep = dict(case=case, impl=i, model=m, filter=text, typings=typings, verdicts=verdicts)
+        rep = dict(case=case, impl=i, model=m, filter=text, filter_go=go_literal(cf[2]), typings=typings, verdicts=verdicts)
         flagged = False
         for ty, v in zip(typings, verdicts):
             verdict_hist[v.split(":")[0]] = verdict_hist.get(v.split(":")[0], 0) + 1
@@ -183,9 +340,10 @@ def main(argv):
                 flagged = True
         if ierr != "e0" and (accepted or entry_accepts):
             who = ("ast.Parse (x typed %s)" % accepted[0]) if accepted else entry_accepts[0]
+            rejecting = [ENTRY_NAMES[k] for k, l in enumerate(entries) if l == "R"]
             c.violation("C10:lexer-error-accepted",
-                        "filter %r contains characters no token rule accepts (%s lexer errors, the regions are dropped) and is nevertheless accepted by %s"
-                        % (text, ierr[1:], who), dict(rep, typing=accepted[0] if accepted else None, accepted_by=["ast.Parse typed " + t for t in accepted] + entry_accepts,
+                        "filter %s = %r contains characters no token rule accepts (%s lexer errors, the regions are dropped) and is nevertheless accepted by %s%s"
+                        % (go_literal(cf[2]), text, ierr[1:], who, (" (while %s rejects it)" % rejecting[0]) if rejecting else ""), dict(rep, typing=accepted[0] if accepted else None, accepted_by=["ast.Parse typed " + t for t in accepted] + entry_accepts,
                                                       rejected_by=[ENTRY_NAMES[k] for k, l in enumerate(entries) if l == "R"], entries=entries))
             flagged = True
         if sentence == "0" and (accepted or entry_accepts) and text != "":
@@ -244,6 +402,8 @@ def main(argv):
                         "parsing `a and a or a and a ...` with 40 connectives (245 characters) did not finish within %d s (%s): "
                         "prediction time grows exponentially with the number of mixed connectives" % (limit, done or "nothing finished"),
                         dict(scalecase=20, filter="a" + " and a or a" * 20, timeout_s=limit, finished=scale, rc=rc))
+    if term_bg is not None:
+        term_step(c, harness, launched=term_bg)
     c.cov["evaluations"] = evaluations
     c.cov["cases"] = len(cases)
     c.cov["distinct_nontrivial"] = len(distinct)
@@ -262,7 +422,12 @@ def main(argv):
                      "and token-level mutations of those; typing `store`: parsed against the real store and evaluated through QueryIds / QueryIdsC / IterateIds(+Seek) / IterateValidIds / QueryWithCursorC "
                      "(row-id list with ids of missing entities, related-entity cursors) over a bolt file with the entity profiles full / NEVER WRITTEN / nil+empty / scalars only / sets only / dangling references / mistyped "
                      "and over the roots all / orphan (linked stores never created) / hollow (no entity) / void (no bucket); a panic is minimised to the single entity profile that is needed. "
-                     "ins = 17 short valid sentences with one of 25 punctuation / control / non-ASCII characters inserted at every position. "
+                     "ins = 17 short valid sentences with one of 42 punctuation / control / blank-like / non-ASCII characters inserted at every position. "
+                     "edge = 125 blank-like runes from Go's unicode tables (IsSpace, IsControl, Zs Zl Zp, White_Space, Pattern_White_Space, Bidi / Join controls, soft hyphen, ZWSP, BOM, U+FFFD, "
+                     "non-characters, look-alikes of ASCII under case mapping / NFKC) + 11 byte sequences that are not UTF-8 + 12 mixtures with grammar white space: alone, as first / last characters "
+                     "of every short sentence (bare and next to grammar white space), behind the first token, in place of a blank, around both ends / middle and last token boundary (every 4th "
+                     "sentence), one character of a sentence replaced by its look-alike; the Coq table blank_like_foreign is compared with the population (case line W). "
+                     "TERMINATION (coverage key `termination`): 25 families of growing size x (valid + 12 invalid twins) x 11 entry points, each call under max(5 s, 100 x valid twin). "
                      "ENTRY POINTS: every filter of every stream through zitiql.Parse, ParseWithDebug(false), ParseWithDebug(true), Parse after the debug run, Parse with the ast listener, "
                      "ast.Parse + QueryIds(string) of a boltz store, ast.Parse + QueryEntities(string) of an objectz store: accept / reject / panic per entry point; the syntax-only ones must be equal, "
                      "a typed one never accepts what the one below it refuses, none accepts a lexer error or a non-sentence. "
@@ -274,6 +439,13 @@ def main(argv):
                      % ((6, 5) if c.thorough else (5, 4)))
     idx = sorted(set((0, min(7, len(cases) - 1), len(cases) // 2, len(cases) - 1)))
     c.cov["samples"] = [dict(case=cases[k], impl=impl[k], model=modl[k]) for k in idx]
+    if table_mismatch and not c.violations:
+        ca, i, m = table_mismatch[0]
+        c.violation("C10:correspondence", "the blank-like characters of Go's unicode tables (harness c10_edge.go c10wRunes) are not the table blank_like_foreign of "
+                    "Lang/ForeignBlank.v that the theorems about the edges of a text cover (t in table, s starts no token, e ends no token, w no grammar white space, "
+                    "n size): harness %s model %s" % (i, m),
+                    dict(correspondence="Lang/ForeignBlank.v blank_like_foreign vs unicode.IsSpace / IsControl / Zs Zl Zp / format characters", case=ca, impl=i, model=m,
+                         theorems=["blank_like_characters_are_foreign", "foreign_blank_at_an_edge_rejected"]), no_input=True)
     if disagreements and not c.violations:
         case, i, m, what = disagreements[0]
         c.violation("C10:correspondence", "model and implementation differ (%s) on %d cases, e.g. %r: impl %s model %s"
